@@ -173,6 +173,30 @@ def fam_nesting(ch):
     return '(' * d + 'not (' * min(d, 30) + 'p' + ')' * min(d, 30) + ')' * d
 
 
+REPEAT_UNITS = VOCAB + ('\\\\', '\\"', '\\n', '\\', 'a.', '.a', ' ', '\n', '# ', '""', '"a" ', 'x ', '1 ', '1.', 'e1', '--', '- ', 'a/', '/a', 'not ', '@', '..')
+REPEAT_OPENERS = (
+    '', '', '{', '{ x = "', '{ x = "a', 'x = "', '"', 'globally: no a { s = "', 'globally: no ', 'globally: no a or ', '# title: "', '# description: "a',
+    '# id: ', '{ x > ', '{ f(', '{ x in {', '{ x in [', 'after ', 'globally: some a within ',
+)  # fmt: skip
+REPEAT_CLOSERS = ('', '', '', '"', '" }', '}', ' }', ')', '\n', '\nglobally: no a', ' s', '] }')
+
+
+def fam_repeat(ch):
+    """Long and flat: one short unit written many times, after an opener that may leave a string, an annotation, a
+    bracket or a pattern open, and before a closer that may or may not fit. Nesting stays bounded (the units that open
+    a bracket are repeated at most 100 times, as in fam_nesting); length does not."""
+    n = ch.pick([ch.int(2, 40), ch.int(20, 100), ch.int(20, 100), ch.int(100, 600)])
+    if ch.int(0, 2) == 0:
+        # inside a string literal (the one token with an inner structure of its own: escapes), closed or not
+        unit = ch.pick(['\\\\', '\\', '\\"', '\\n', '""', "'", 'a', '\\a', ' '])
+        opener = ch.pick(['{ x = "', '{ x = "a', 'x = "', '"', 'globally: no a { s = "', '# title: "', '# id: p\n# description: "a', '{ f("'])
+        return opener + unit * n + ch.pick(['', '', '"', '" }', '}', ' }', '\n', '\nglobally: no a', '")', 'a'])
+    unit = ch.pick(REPEAT_UNITS)
+    if unit.strip() in ('(', '[', '{', '![', 'abs', 'len', 'max', 'sum', 'foo', 'not', '-', '- ', '--', 'not '):
+        n = min(n, 100)
+    return ch.pick(REPEAT_OPENERS) + unit * n + ch.pick(REPEAT_CLOSERS)
+
+
 def wrap_for(kind, text, ch):
     """Put an expression-level text into the syntactic context of an entry point."""
     if kind == 'predicate':
@@ -231,7 +255,9 @@ def fam_double_fault(ch):
 
 
 def gen_case(ch):
-    fam = ch.pick(['tokens', 'tokens', 'mutation', 'mutation', 'chaos', 'chaos', 'annotations', 'nesting', 'cross', 'chars', 'chars', 'double-fault'])
+    fam = ch.pick(['tokens', 'tokens', 'mutation', 'mutation', 'chaos', 'chaos', 'annotations', 'nesting', 'cross', 'chars', 'chars', 'double-fault', 'repeat'])
+    if fam == 'repeat':
+        return {'kind': ch.pick(lib.ENTRY_POINTS), 'text': fam_repeat(ch), 'family': fam}
     if fam == 'double-fault':
         k2, text = fam_double_fault(ch)
         return {'kind': k2, 'text': text, 'family': fam}
